@@ -1276,6 +1276,31 @@ class Environment:
 ####################
 
 
+def _find_sample_site(obj):
+    """First `sample_p`/`adev_sample_p` equation nested in a primitive's params, if any."""
+    if isinstance(obj, ClosedJaxpr):
+        obj = obj.jaxpr
+    if isinstance(obj, Jaxpr):
+        for eqn in obj.eqns:
+            primitive, _ = PPPrimitive.unwrap(eqn.primitive)
+            if primitive in (sample_p, adev_sample_p):
+                return eqn
+            found = _find_sample_site(eqn.params)
+            if found is not None:
+                return found
+    elif isinstance(obj, dict):
+        for v in obj.values():
+            found = _find_sample_site(v)
+            if found is not None:
+                return found
+    elif isinstance(obj, (tuple, list)):
+        for v in obj:
+            found = _find_sample_site(v)
+            if found is not None:
+                return found
+    return None
+
+
 @dataclass
 class Seed:
     """Interpreter that eliminates probabilistic primitives with explicit randomness.
@@ -1394,6 +1419,13 @@ class Seed:
                 )
 
             else:
+                # A higher-order primitive that is not interpreted here (while,
+                # remat, custom_jvp/vjp, nested jit, ...) must not keep a sampling
+                # site: it would silently draw from the global key counter.
+                residual = _find_sample_site(eqn.params)
+                if residual is not None:
+                    _, residual_params = PPPrimitive.unwrap(residual.primitive)
+                    raise residual_params["lowering_exception"]
                 outvals = eqn.primitive.bind(*args, **params)
 
             if not eqn.primitive.multiple_results:
